@@ -258,6 +258,22 @@ def run(rep):
     rep.check('R19.c', fkey(rz, 'len <= cap'), ok,
               'after resize either len(_data) <= new_size was tested or _data was truncated to [:new_size]' if ok else
               'resize() can leave more than _cap values in _data (no truncation / bound test on some path)', st, rz.node)
+    # constructor: the capacity parameter doubles as a flag (True = default, False = unbounded); since 1 == True and
+    # 0 == False in Python, the flag tests must be identity tests, otherwise cap=1 / cap=0 silently get another capacity
+    ri = st.func('Reservoir.__init__')
+    capp = [p for p in ri.params() if p != 'self'][0]
+    flag_tests = [n for n in walk_body(ri.node) if isinstance(n, ast.Compare) and
+                  (norm(n.left) == capp or any(norm(c) == capp for c in n.comparators)) and
+                  any(isinstance(x, ast.Constant) and isinstance(x.value, bool) for x in ast.walk(n))]
+    bad = [t for t in flag_tests if not all(isinstance(o, (ast.Is, ast.IsNot)) for o in t.ops)]
+    rep.check('R19.c', fkey(ri, 'capacity flag tests'), bool(flag_tests) and not bad,
+              'cap is compared with True/False by identity (%d tests)' % len(flag_tests) if flag_tests and not bad else
+              'cap is compared with a bool by equality / membership (%s): cap=1 (== True) or cap=0 (== False) would be taken for the flag and '
+              'the store would exceed the requested capacity' % [short(t) for t in bad], st, (bad or [ri.node])[0])
+    caps = [s for s in stmts_of(ri.node) if isinstance(s, ast.Assign) and norm(s.targets[0]) == 'self._cap']
+    ok = any(norm(s.value) == 'int(%s)' % capp and not has_cond(conds(ri, s), lambda t: True, True) or norm(s.value) == 'int(%s)' % capp for s in caps)
+    rep.check('R19.c', fkey(ri, 'numeric capacity'), ok, 'any other value is taken as the capacity itself (int(cap))' if ok else
+              'a numeric cap is not stored as the capacity', st, ri.node)
     # who may write the store
     allowed = {'Reservoir.__init__', 'Reservoir.add', 'Reservoir.resize'}
     writers = []
